@@ -1,4 +1,5 @@
 import ScryerModel.Proofs.Lfp
+import ScryerModel.Proofs.Delim
 /-!
 # C38 — Delimited control and tabling compute the specified answers
 
@@ -122,3 +123,209 @@ example : ProgEquiv exLeft exRight :=
   ProgEquiv.of_perm_bodies (by decide) (by decide)
 
 end Scryer.Lfp
+
+/-!
+## Part A — reset/3 and shift/1
+
+`Model/Delim.lean` is a frame-stack machine for the deterministic fragment of Prolog control: the
+continuation is an explicit list of frames (`Frame.goal g` = still to run, `Frame.marker b c` = the
+marker of a running `reset(_,b,c)`), goals are Prolog terms and the store / unification / builtins
+are those of `Scryer.Solve`.  `step` is one machine transition, `Steps` its reflexive-transitive
+closure, `tf` the fuel for term operations (dereferencing, unification, decoding a continuation term;
+the driver uses 100000).  The laws below hold for every program `P`, every store `st` and every
+rest-of-stack `K` (so under any nesting of resets and any calling context).
+
+The continuation bound by scryer is `cont(G)` (and `none` when the goal did not shift — SWI-Prolog
+uses `call_continuation/1` terms and `0`); the model uses `cont('$cont'(Goals))`.  A `shift/1` with no
+enclosing `reset/3` fails in scryer (`'$unwind_environments'` finds no marker); the model mirrors
+that.  The WAM side (environment chunks, `'$get_cont_chunk'`, `'$call_continuation'`) is tied to
+the machine by the correspondence run only.
+-/
+namespace Scryer.Delim
+open Scryer Scryer.Solve
+
+def resetG (g b c : Term) : Term := .str "reset" [g, b, c]
+def shiftG (t : Term) : Term := .str "shift" [t]
+def conjG (a b : Term) : Term := .str "," [a, b]
+/-- the callable inside `cont(_)`: a first-class continuation made of the goals `k` -/
+def kGoal (k : List Term) : Term := .str "$cont" [encodeGoals k]
+def noneG (c : Term) : Term := mkUnify c (.atom "none")
+
+theorem contTerm_eq (k : List Term) : contTerm k = .str "cont" [kGoal k] := rfl
+
+/-- Stack locality: a run that needs only the frames `F` proceeds identically on top of any rest
+    `K` — no rule inspects what lies below the nearest reset marker. -/
+theorem C38_stack_locality {tf : Nat} {P : Prog} {F F' : List Frame} {st st' : St}
+    (h : Steps tf P ⟨F, st⟩ ⟨F', st'⟩) (K : List Frame) :
+    Steps tf P ⟨F ++ K, st⟩ ⟨F' ++ K, st'⟩ := steps_append h K
+
+/-- `reset(G,B,C)` when `G` does not shift past its own resets (it runs to completion on a stack of
+    its own, reaching store `st'`): it behaves exactly like `G, C = none`, in any context `K`. -/
+theorem C38_reset_without_shift {tf : Nat} (htf : 0 < tf) (P : Prog) (g b c : Term) (K : List Frame)
+    {st st' : St} (hg : Steps tf P ⟨[.goal g], st⟩ ⟨[], st'⟩) :
+    Steps tf P ⟨.goal (resetG g b c) :: K, st⟩ ⟨.goal (noneG c) :: K, st'⟩ := by
+  refine .head (c' := ⟨.goal g :: .marker b c :: K, st⟩) ?_ ?_
+  · rw [resetG, step_goal_str htf]; simp [classify, stepGoal]
+  · have := steps_append hg (.marker b c :: K)
+    simp only [List.cons_append, List.nil_append] at this
+    exact this.trans (Steps.single (by simp [step, noneG]))
+
+/-- `shift(T)` captures exactly the goals `gs` between itself and the NEAREST reset marker — nothing
+    of `K`, whatever `K` contains (further markers included) — removes that marker, and continues in
+    the context of that reset with `C = cont(<gs>)`, `B = T`. -/
+theorem C38_shift_captures_up_to_nearest_reset {tf : Nat} (htf : 0 < tf) (P : Prog) (t : Term)
+    (gs : List Term) (b c : Term) (K : List Frame) (st : St) :
+    step tf P ⟨.goal (shiftG t) :: (goals gs ++ .marker b c :: K), st⟩ =
+      .next ⟨.goal (mkUnify c (contTerm gs)) :: .goal (mkUnify b t) :: K, st⟩ := by
+  rw [shiftG, step_goal_str htf]
+  simp [classify, stepGoal, splitAtMarker_goals]
+
+/-- Two nested resets: the inner marker is the one that is used; the goals of the outer reset
+    (`gs₂`), the outer marker and everything below stay on the stack untouched. -/
+theorem C38_nested_resets_inner_wins {tf : Nat} (htf : 0 < tf) (P : Prog) (t : Term)
+    (gs₁ gs₂ : List Term) (b₁ c₁ b₂ c₂ : Term) (K : List Frame) (st : St) :
+    step tf P ⟨.goal (shiftG t) :: (goals gs₁ ++ .marker b₁ c₁ :: (goals gs₂ ++ .marker b₂ c₂ :: K)), st⟩ =
+      .next ⟨.goal (mkUnify c₁ (contTerm gs₁)) :: .goal (mkUnify b₁ t) ::
+              (goals gs₂ ++ .marker b₂ c₂ :: K), st⟩ :=
+  C38_shift_captures_up_to_nearest_reset htf P t gs₁ b₁ c₁ _ st
+
+/-- `shift/1` with no enclosing `reset/3` fails (scryer's behaviour; no error is raised). -/
+theorem C38_shift_without_reset_fails {tf : Nat} (htf : 0 < tf) (P : Prog) (t : Term)
+    (gs : List Term) (st : St) :
+    step tf P ⟨.goal (shiftG t) :: goals gs, st⟩ = .fail := by
+  rw [shiftG, step_goal_str htf]
+  simp [classify, stepGoal, splitAtMarker_none]
+
+/-- Calling a captured continuation pushes exactly the captured goals back, on top of the
+    caller's own continuation `K`. -/
+theorem C38_call_continuation_resumes {tf : Nat} (P : Prog) (gs : List Term) (hlen : gs.length < tf)
+    (K : List Frame) (st : St) :
+    step tf P ⟨.goal (kGoal gs) :: K, st⟩ = .next ⟨goals gs ++ K, st⟩ := by
+  rw [kGoal, step_goal_str (by omega)]
+  simp [classify, stepGoal, decode_encode gs tf hlen]
+
+/-- The reset/shift law: `reset((Pre, shift(T), Rest), B, C)`, where `Pre` runs to completion without
+    shifting (store `st ↦ st'`), continues with `C = cont(k)`, `B = T` under the bindings made by
+    `Pre`, and calling `k` in any context runs exactly `Rest` (the remaining computation up to the
+    reset, not beyond). -/
+theorem C38_reset_shift_law {tf : Nat} (htf : 1 < tf) (P : Prog) (pre t rest b c : Term)
+    (K : List Frame) {st st' : St} (hpre : Steps tf P ⟨[.goal pre], st⟩ ⟨[], st'⟩) :
+    Steps tf P ⟨.goal (resetG (conjG pre (conjG (shiftG t) rest)) b c) :: K, st⟩
+      ⟨.goal (mkUnify c (.str "cont" [kGoal [rest]])) :: .goal (mkUnify b t) :: K, st'⟩ ∧
+    ∀ K' st'', step tf P ⟨.goal (kGoal [rest]) :: K', st''⟩ = .next ⟨.goal rest :: K', st''⟩ := by
+  have h0 : 0 < tf := by omega
+  refine ⟨?_, fun K' st'' => by simpa [goals] using C38_call_continuation_resumes P [rest] (by simpa using htf) K' st''⟩
+  refine .head (c' := ⟨.goal (conjG pre (conjG (shiftG t) rest)) :: .marker b c :: K, st⟩) ?_ ?_
+  · rw [resetG, step_goal_str h0]; simp [classify, stepGoal]
+  refine .head (c' := ⟨.goal pre :: .goal (conjG (shiftG t) rest) :: .marker b c :: K, st⟩) ?_ ?_
+  · rw [conjG, step_goal_str h0]; simp [classify, stepGoal]
+  have := steps_append hpre (.goal (conjG (shiftG t) rest) :: .marker b c :: K)
+  simp only [List.cons_append, List.nil_append] at this
+  refine this.trans ?_
+  refine .head (c' := ⟨.goal (shiftG t) :: .goal rest :: .marker b c :: K, st'⟩) ?_ ?_
+  · rw [conjG, step_goal_str h0]; simp [classify, stepGoal]
+  refine Steps.single ?_
+  have := C38_shift_captures_up_to_nearest_reset h0 P t [rest] b c K st'
+  simpa [goals, contTerm_eq] using this
+
+/-- Re-entrancy: resuming a continuation inside a NEW reset re-installs exactly the captured goals
+    above the new marker — so a further `shift` in them is caught by the new reset
+    (`C38_shift_captures_up_to_nearest_reset`). -/
+theorem C38_continuation_reentrant {tf : Nat} (P : Prog) (gs : List Term) (hlen : gs.length < tf)
+    (b c : Term) (K : List Frame) (st : St) :
+    Steps tf P ⟨.goal (resetG (kGoal gs) b c) :: K, st⟩ ⟨goals gs ++ .marker b c :: K, st⟩ := by
+  refine .head (c' := ⟨.goal (kGoal gs) :: .marker b c :: K, st⟩) ?_ (Steps.single ?_)
+  · rw [resetG, step_goal_str (by omega)]; simp [classify, stepGoal]
+  · exact C38_call_continuation_resumes P gs hlen _ st
+
+/-- The handler-iteration protocol, as a relation: `Iterates G vs` says that `reset(G,B,C)` (in any
+    context and store) yields the ball `v₁` and a continuation `cont(k₁)`, that `reset(k₁,B,C)` yields
+    `v₂` and `cont(k₂)`, …, and that after `vs` is exhausted the last reset ends with `C = none`.
+    This is what the iterator loop `collect(G,L) :- reset(G,B,C), ( C == none -> L = [] ; C = cont(K),
+    L = [B|L1], collect(K,L1) )` observes. -/
+inductive Iterates (tf : Nat) (P : Prog) : Term → List Term → Prop where
+  | done {G : Term} :
+      (∀ b c K st, Steps tf P ⟨.goal (resetG G b c) :: K, st⟩ ⟨.goal (noneG c) :: K, st⟩) →
+      Iterates tf P G []
+  | yield {G v : Term} {k : List Term} {vs : List Term} :
+      (∀ b c K st, Steps tf P ⟨.goal (resetG G b c) :: K, st⟩
+          ⟨.goal (mkUnify c (.str "cont" [kGoal k])) :: .goal (mkUnify b v) :: K, st⟩) →
+      Iterates tf P (kGoal k) vs → Iterates tf P G (v :: vs)
+
+/-- the same protocol on frames (goals `gs` standing above a marker) -/
+inductive IterF (tf : Nat) (P : Prog) : List Term → List Term → Prop where
+  | done {gs : List Term} :
+      (∀ b c K st, Steps tf P ⟨goals gs ++ .marker b c :: K, st⟩ ⟨.goal (noneG c) :: K, st⟩) →
+      IterF tf P gs []
+  | yield {gs : List Term} {v : Term} {k : List Term} {vs : List Term} :
+      (∀ b c K st, Steps tf P ⟨goals gs ++ .marker b c :: K, st⟩
+          ⟨.goal (mkUnify c (.str "cont" [kGoal k])) :: .goal (mkUnify b v) :: K, st⟩) →
+      k.length < tf → IterF tf P k vs → IterF tf P gs (v :: vs)
+
+theorem IterF.toCont {tf : Nat} {P : Prog} {k : List Term} {vs : List Term} (h : IterF tf P k vs)
+    (hk : k.length < tf) : Iterates tf P (kGoal k) vs := by
+  induction h with
+  | done hd => exact .done fun b c K st => (C38_continuation_reentrant P _ hk b c K st).trans (hd b c K st)
+  | yield hy hk' _ ih =>
+      exact .yield (fun b c K st => (C38_continuation_reentrant P _ hk b c K st).trans (hy b c K st)) (ih hk')
+
+theorem IterF.toGoal {tf : Nat} (htf : 0 < tf) {P : Prog} {G : Term} {vs : List Term}
+    (h : IterF tf P [G] vs) : Iterates tf P G vs := by
+  have hr : ∀ b c K st, Steps tf P ⟨.goal (resetG G b c) :: K, st⟩ ⟨goals [G] ++ .marker b c :: K, st⟩ := by
+    intro b c K st
+    refine Steps.single ?_
+    rw [resetG, step_goal_str htf]; simp [classify, stepGoal, goals]
+  cases h with
+  | done hd => exact .done fun b c K st => (hr b c K st).trans (hd b c K st)
+  | yield hy hk' hrest => exact .yield (fun b c K st => (hr b c K st).trans (hy b c K st)) (hrest.toCont hk')
+
+/-- the standard generator: `shift(v₁), (shift(v₂), (… , true))` -/
+def genGoal : List Term → Term
+  | [] => .atom "true"
+  | v :: vs => conjG (shiftG v) (genGoal vs)
+
+theorem iterF_genGoal {tf : Nat} (htf : 1 < tf) (P : Prog) : ∀ vs, IterF tf P [genGoal vs] vs
+  | [] => by
+      refine .done fun b c K st => ?_
+      refine .head (c' := ⟨.marker b c :: K, st⟩) ?_ (Steps.single (by simp [step, noneG]))
+      simp only [goals, List.map_cons, List.map_nil, List.cons_append, List.nil_append, genGoal]
+      rw [step_goal_atom (by omega)]; simp [classify, stepGoal]
+  | v :: vs => by
+      refine .yield (k := [genGoal vs]) (fun b c K st => ?_) (by simpa using htf) (iterF_genGoal htf P vs)
+      refine .head (c' := ⟨.goal (shiftG v) :: .goal (genGoal vs) :: .marker b c :: K, st⟩) ?_ (Steps.single ?_)
+      · simp only [goals, List.map_cons, List.map_nil, List.cons_append, List.nil_append, genGoal]
+        rw [conjG, step_goal_str (by omega)]; simp [classify, stepGoal]
+      · have := C38_shift_captures_up_to_nearest_reset (by omega : 0 < tf) P v [genGoal vs] b c K st
+        simpa [goals, contTerm_eq] using this
+
+/-- Effect-handler iteration law: the generator `shift(v₁), …, shift(vₙ), true`, driven by the
+    handler protocol (reset; on `cont(k)` reset `k` again), yields exactly the sequence `v₁ … vₙ` of
+    shifted values, in order, and then reports `none`; for every list of values, in every context. -/
+theorem C38_iterator_yields_shifted_values {tf : Nat} (htf : 1 < tf) (P : Prog) (vs : List Term) :
+    Iterates tf P (genGoal vs) vs :=
+  (iterF_genGoal htf P vs).toGoal (by omega)
+
+/-! ### non-vacuity -/
+
+/-- a goal that "does not shift": `true` completes on its own stack -/
+example : Steps 5 [] ⟨[.goal (.atom "true")], ⟨[], 0⟩⟩ ⟨[], ⟨[], 0⟩⟩ :=
+  Steps.single (by rw [step_goal_atom (by omega)]; simp [classify, stepGoal])
+
+/-- a goal that does its own reset/shift also "does not shift" in the sense of
+    `C38_reset_without_shift`: the inner reset catches the shift -/
+example : ∃ st', Steps 5 [] ⟨[.goal (resetG (shiftG (.atom "a")) (.var "B") (.var "C"))], ⟨[], 0⟩⟩ ⟨[], st'⟩ := by
+  refine ⟨_, ?_⟩
+  refine .head (c' := ⟨[.goal (shiftG (.atom "a")), .marker (.var "B") (.var "C")], ⟨[], 0⟩⟩) ?_ ?_
+  · rw [resetG, step_goal_str (by omega)]; simp [classify, stepGoal]
+  refine .head ?_ ?_
+  · exact C38_shift_captures_up_to_nearest_reset (by omega) [] (.atom "a") [] (.var "B") (.var "C") [] ⟨[], 0⟩
+  refine .head (c' := ⟨[.goal (mkUnify (.var "B") (.atom "a"))], ⟨[("C", contTerm [])], 1⟩⟩) ?_ ?_
+  · rw [mkUnify, step_goal_str (by omega)]
+    simp [classify, stepGoal, callPred, builtin, classifyB, runB, ofUnify, unify, walk, lookup, bindVar,
+      occurs, occursList, contTerm, encodeGoals, Term.nil]
+  refine Steps.single (b := ⟨[], ⟨[("B", .atom "a"), ("C", contTerm [])], 2⟩⟩) ?_
+  rw [mkUnify, step_goal_str (by omega)]
+  simp [classify, stepGoal, callPred, builtin, classifyB, runB, ofUnify, unify, walk, lookup, bindVar,
+    occurs, occursList]
+
+end Scryer.Delim
